@@ -7,6 +7,7 @@ import logging
 import os
 import sys
 import textwrap
+import threading
 import types
 from collections import defaultdict
 from contextlib import contextmanager, suppress
@@ -204,7 +205,9 @@ class _InternalBaseTracer(_InternalBaseTracerSuper, metaclass=MetaTracerStateMac
         self._ctx: Optional[ContextManager] = None
         self._tracing_enabled_files: Set[str] = {self.defined_file}
         self._current_sandbox_fname: str = SANDBOX_FNAME
-        self._saved_thunk: Optional[Union[str, ast.AST]] = None
+        # per thread: between a before_stmt emission and the exec of the value it left,
+        # other threads may run before_stmt emissions of their own
+        self._saved_thunk_slot = threading.local()
         self._is_tracing_enabled = False
         self._is_tracing_hard_disabled = False
         self.existing_tracer = sys_gettrace()
@@ -278,6 +281,14 @@ class _InternalBaseTracer(_InternalBaseTracerSuper, metaclass=MetaTracerStateMac
     @property
     def is_tracing_enabled(self) -> bool:
         return self._is_tracing_enabled
+
+    @property
+    def _saved_thunk(self) -> Optional[Union[str, ast.AST]]:
+        return getattr(self._saved_thunk_slot, "thunk", None)
+
+    @_saved_thunk.setter
+    def _saved_thunk(self, thunk: Optional[Union[str, ast.AST]]) -> None:
+        self._saved_thunk_slot.thunk = thunk
 
     def _post_init_hook_start(self):
         self._persistent_fields = set(self.__dict__.keys())
